@@ -29,6 +29,9 @@ HOOKS = {r'^<(?:\w+::)*Name as WireFormat>::parse$': rdata_name_stub}
 
 
 def tasks(tier, params):
+    if params.get('alloc_only'):
+        return [('alloc3.' + name, {'code': code, 'K': 0, 'alloc3': rd})
+                for name, code, rd in (('TXT', 16, [0]), ('NSEC', 47, [0]), ('SVCB', 64, [0, 0, 0]), ('HTTPS', 65, [0, 0, 0]))]
     K = 9 if tier == 'thorough' else 6
     out = [(t.name, {'code': t.code, 'K': K}) for t in S.TYPES if t.name != 'OPT']
     out.append(('NULL', {'code': 10, 'K': K}))
